@@ -401,7 +401,8 @@ Result run(const RunSpec& spec, const Config& cfg, const Hooks& hooks) {
   g.ntasks = 0; g.steps = 0; g.switches = 0; g.time_base = 1000000000LL; g.real_off = 1700000000LL * 1000000000LL + cfg.real_phase_ns;
   g.tail = false; g.tail_requested = false; g.tail_limit = 0; g.budget_exhausted = false; g.quiesced = false; g.ending = false; g.rr_last = 0;
   seedx(g.s, spec.seed ^ 0xD1CEULL); seedx(g.p, spec.seed ^ 0x9A11ULL);
-  g.spec = &spec; g.cfg = cfg; g.hooks = hooks; g.res = &res; g.hash = 0xcbf29ce484222325ULL;
+  g.spec = &spec; g.cfg = cfg; g.hooks = hooks;
+  { static const char* lk = getenv("SIM_LOGKEEP"); if (lk) g.cfg.log_keep = (size_t)atol(lk); } g.res = &res; g.hash = 0xcbf29ce484222325ULL;
   std::deque<std::string> log; g.log = &log;
   std::unordered_map<uint64_t,int> rdec; g.rdec = &rdec;
   std::vector<Preemption> rpre[MAXT + 1];
